@@ -202,6 +202,7 @@ pub fn check_case(focus: &str, case: &CoverCase, col: &Collector) -> CheckResult
     for (urp, udnf, usk) in &users {
         for (erp, ednf, secret, enc) in &encs {
             let covered = policy_covers(&case.spec, udnf, ednf);
+            col.eval(1);
             let r = cc.decaps(usk, enc);
             let ctx = || format!("structure {} user '{}' enc '{}'", case.spec.shape(), urp.describe(), erp.describe());
             let pair = Pair { spec: &case.spec, user: udnf, enc: ednf };
